@@ -21,6 +21,7 @@
 -/
 import GIVerif.Py.Str
 import GIVerif.Gen.TypeNames
+import GIVerif.Gen.GirReaderState
 
 namespace GIVerif.GirCodec
 open GIVerif.Py
@@ -1072,6 +1073,62 @@ def isFieldElem (m : Member) : Bool :=
   match m.body with
   | .anon _ => false
   | _ => true
+
+
+/-! ### the reader object: per-document header state of `GIRParser`
+
+  `GIRParser.parse_tree` (re)assigns `_includes`, `_pkgconfig_packages`, `_c_includes` (fresh sets), `_doc_format`
+  (`"unknown"`); `_parse_api` lets `_parse_include` / `_parse_pkgconfig_package` / `_parse_c_include` /
+  `_parse_doc_format` update them for every header child of `<repository>` and then hands these very objects to
+  the `ast.Namespace` (`namespace.includes = self._includes` …).  Which attributes `parse_tree` assigns is taken
+  from the table re-extracted from girparser.py (`Gen.GirReaderState.parseTreeResets`), so the model follows the
+  code: an attribute that is not reassigned keeps what earlier documents left in it. -/
+
+inductive HItem where
+  | incl (name version : Str)
+  | package (name : Str)
+  | cInclude (name : Str)
+  | docFormat (name : Str)
+  deriving Repr, DecidableEq, Inhabited
+
+structure HState where
+  includes : List (Str × Str)
+  packages : List Str
+  cIncludes : List Str
+  docFormat : Str
+  deriving Repr, DecidableEq, Inhabited
+
+def sUnknown : Str := "unknown".toList
+
+/-- the values `parse_tree` assigns -/
+def hInit : HState := { includes := [], packages := [], cIncludes := [], docFormat := sUnknown }
+
+/-- the assignments at the start of `parse_tree`, for the attributes it assigns (`resets`) -/
+def hReset (resets : List String) (s : HState) : HState :=
+  { includes := if resets.contains "_includes" then [] else s.includes,
+    packages := if resets.contains "_pkgconfig_packages" then [] else s.packages,
+    cIncludes := if resets.contains "_c_includes" then [] else s.cIncludes,
+    docFormat := if resets.contains "_doc_format" then sUnknown else s.docFormat }
+
+/-- `set.add` -/
+def setAdd {α : Type} [BEq α] (x : α) (l : List α) : List α := if l.contains x then l else x :: l
+
+/-- `_parse_include`, `_parse_pkgconfig_package`, `_parse_c_include`, `_parse_doc_format` -/
+def hStep (s : HState) : HItem → HState
+  | .incl n v => { s with includes := setAdd (n, v) s.includes }
+  | .package n => { s with packages := setAdd n s.packages }
+  | .cInclude n => { s with cIncludes := setAdd n s.cIncludes }
+  | .docFormat n => { s with docFormat := n }
+
+/-- `parse_tree` on the header children of a document: the reader's state afterwards, which is also the header
+    of the namespace it returns -/
+def parseHeader (resets : List String) (s : HState) (doc : List HItem) : HState :=
+  doc.foldl hStep (hReset resets s)
+
+/-- a history of `parse()` calls on one reader: the header of each returned namespace -/
+def runHistory (resets : List String) (s : HState) : List (List HItem) → List HState
+  | [] => []
+  | d :: ds => parseHeader resets s d :: runHistory resets (parseHeader resets s d) ds
 
 
 end GIVerif.GirCodec
